@@ -252,6 +252,14 @@ def relabel(ctx, struct, how, dim, appended=()):
         f = lambda: ds.axes[dim].__setitem__(n - 1, new[0])
     elif how == 'set_axis':
         f = lambda: ds.set_axis(list(new), axis=dim)
+    elif how == 'axes[pos]=Axis':       # the dimension referred to by its position in the dataset
+        f = lambda: ds.axes.__setitem__(list(ds.dims).index(dim), ctx.da.Axis(ctx.nparray(new, kind=kind), dim))
+    elif how == 'axes[negpos]=Axis':
+        f = lambda: ds.axes.__setitem__(list(ds.dims).index(dim) - len(ds.dims), ctx.da.Axis(ctx.nparray(new, kind=kind), dim))
+    elif how == 'axes[pos][i]=label':
+        full = list(st['labels'][dim])
+        full[0] = new[0]
+        f = lambda: ds.axes[list(ds.dims).index(dim)].__setitem__(0, new[0])
     elif how == 'set_axis_pos':
         f = lambda: ds.set_axis(ctx.nparray(new, kind=kind), axis=list(ds.dims).index(dim))
     elif how == 'attr':
@@ -439,7 +447,7 @@ def templates():
         for dim in dims:
             for how in ('axis.name', 'ds.dims', 'set_axis', 'rename_axes', 'rename_axes_fn', 'var.axis.name', 'var.dims', 'rename_axes_copy'):
                 add('rename-%s-%s-%s' % (sname, dim, how), 'rename', cost=0.2, struct=sname, how=how, dim=dim)
-            for how in ('axes[d]=Axis', 'axes[d]=values', 'axes[d][i]=label', 'set_axis', 'set_axis_pos', 'attr', 'axis.values', 'var.axis[i]', 'var.set_axis', 'set_axis_copy', 'var.labels', 'var.attr'):
+            for how in ('axes[d]=Axis', 'axes[pos]=Axis', 'axes[negpos]=Axis', 'axes[pos][i]=label', 'axes[d]=values', 'axes[d][i]=label', 'set_axis', 'set_axis_pos', 'attr', 'axis.values', 'var.axis[i]', 'var.set_axis', 'set_axis_copy', 'var.labels', 'var.attr'):
                 add('relabel-%s-%s-%s' % (sname, dim, how), 'relabel', cost=0.3, struct=sname, how=how, dim=dim)
             add('wrongsize-%s-%s' % (sname, dim), 'wrong_size', cost=0.2, struct=sname, dim=dim)
             for how in ('setitem-label', 'ix', 'values', 'fill', 'put', 'imul'):
